@@ -5,7 +5,10 @@ use std::io::Write;
 
 use mediasan_common::util::checked_add_signed;
 
+use crate::mp4gen::{bx, ftyp_payload, moov_payload, Enc, TrakSpec};
+use crate::mp4run::{run_mp4, Cfg, ImplOut, Kind};
 use crate::rng::Rng;
+use crate::sparse::Sparse;
 use crate::Opts;
 
 fn line<W: Write>(out: &mut W, w: u32, l: u128, r: i128, res: Option<u128>) {
@@ -49,6 +52,86 @@ macro_rules! lattice {
     }};
 }
 
+
+/// The two CALL SITES of the helper in the chunk-offset rewrite, observed through `mp4san::sanitize`: a file with one
+/// track whose single stco (u32) or co64 (u64) entry is `l`, laid out so that the media moves by a known `r` - forward by
+/// the length of the movie box (`ftyp mdat moov`), or backward by `k` = 1..7 bytes (`ftyp free mdat moov` with a gap too
+/// small to pad).  The rewritten entry, or the refusal, must be what checked addition at the ENTRY's width gives: the
+/// line goes to the same driver function as the direct calls.  `back` = 0 for the forward layout, else `k`.
+fn site_file(co64: bool, back: u64, l: u64) -> (Vec<u8>, usize) {
+    let mut rng = Rng::new(20);
+    let ftyp = bx(b"ftyp", &ftyp_payload(&mut rng, true, 1, 0), Enc::S32);
+    let t = TrakSpec { co64, entries: vec![l], junk: 0, enc: [Enc::S32; 5], dup: 0 };
+    let moov = bx(b"moov", &moov_payload(&mut rng, &[t], false), Enc::S32);
+    let mdat = bx(b"mdat", &[0xaa; 24], Enc::S32);
+    let mut f = ftyp;
+    if back != 0 {
+        f.extend(bx(b"free", &vec![0u8; moov.len() + back as usize - 8], Enc::S32));
+    }
+    f.extend(mdat);
+    f.extend(&moov);
+    (f, moov.len())
+}
+
+fn site_run(co64: bool, back: u64, l: u64) -> Result<(i128, Option<u128>), String> {
+    let (f, _) = site_file(co64, back, l);
+    let s = Sparse::from_bytes(&f);
+    let kind = if l % 2 == 0 { Kind::Seekable } else { Kind::Strict };
+    match run_mp4(&s, &Cfg::default(), kind) {
+        ImplOut::Md(md, off, _) => {
+            let n = if co64 { 8 } else { 4 };
+            let tail = &md[md.len() - n..];
+            let v = tail.iter().fold(0u128, |a, &b| a << 8 | b as u128);
+            Ok((md.len() as i128 - off as i128, Some(v)))
+        }
+        ImplOut::Parse("InvalidInput") => Ok((0, None)),
+        ImplOut::Parse(k) => Err(format!("err-parse-{k}")),
+        ImplOut::Io(k) => Err(format!("err-io-{k}")),
+        ImplOut::Noop(..) => Err("err-noop".into()),
+        ImplOut::Panic => Err("err-panic".into()),
+    }
+}
+
+fn site_case<W: Write>(out: &mut W, co64: bool, back: u64, l: u64) {
+    let w = if co64 { 64 } else { 32 };
+    // the displacement of this layout, from a run whose entry is far from both ends
+    let r = match site_run(co64, back, 1 << 20) {
+        Ok((r, Some(_))) => r,
+        other => {
+            writeln!(out, "C20 w={w} l={l} r=0 impl=err-baseline-{other:?} site={}:{back}", if co64 { "co64" } else { "stco" }).unwrap();
+            return;
+        }
+    };
+    let imp = match site_run(co64, back, l) {
+        Ok((_, Some(v))) => v.to_string(),
+        Ok((_, None)) => "none".to_string(),
+        Err(e) => e,
+    };
+    writeln!(out, "C20 w={w} l={l} r={r} impl={imp} site={}:{back}", if co64 { "co64" } else { "stco" }).unwrap();
+}
+
+fn site_cases<W: Write>(out: &mut W, rng: &mut Rng, n_random: u64) {
+    for co64 in [false, true] {
+        let max: u64 = if co64 { u64::MAX } else { u32::MAX as u64 };
+        let (_, moov_len) = site_file(co64, 0, 0);
+        let fwd = moov_len as u64;
+        for back in [0u64, 1, 2, 7] {
+            let mut ls: Vec<u64> = vec![0, 1, 2, 6, 7, 8, max / 2, max / 2 + 1, max - 1, max];
+            if back == 0 {
+                ls.extend([max - fwd - 1, max - fwd, max - fwd + 1, max - fwd + 2]);
+            } else {
+                ls.extend([back - 1, back, back + 1]);
+            }
+            for _ in 0..n_random {
+                ls.push(if rng.chance(1, 2) { rng.below(16) } else { max - rng.below(2 * fwd) });
+            }
+            for l in ls {
+                site_case(out, co64, back, l);
+            }
+        }
+    }
+}
+
 pub fn run<W: Write>(opts: &Opts, out: &mut W) {
     let mut rng = Rng::new(opts.seed);
     // exhaustive u8 x i8 (65 536 pairs), shipped to the driver: model, spec and impl all compared
@@ -72,6 +155,7 @@ pub fn run<W: Write>(opts: &Opts, out: &mut W) {
             }
         }
     }
+    site_cases(out, &mut rng, if opts.tier_thorough { 400 } else { 40 });
     if opts.tier_thorough {
         // exhaustive u16 x i16 against i64 arithmetic, summarised
         let mut bad: u64 = 0;
@@ -99,6 +183,11 @@ pub fn replay<W: Write>(l: &str, out: &mut W) {
     let w: u32 = get("w").parse().unwrap();
     let lv: u128 = get("l").parse().unwrap();
     let rv: i128 = get("r").parse().unwrap();
+    if let Some(site) = l.split(' ').find_map(|t| t.strip_prefix("site=")) {
+        let (kind, back) = site.split_once(':').unwrap();
+        site_case(out, kind == "co64", back.parse().unwrap(), lv as u64);
+        return;
+    }
     match w {
         8 => one!(out, 8, u8, i8, lv as u8, rv as i8),
         16 => one!(out, 16, u16, i16, lv as u16, rv as i16),
